@@ -658,8 +658,9 @@ def run(ctx):
     if not adel:
         raise AnalysisError("C12: area-of-maintenance check no longer deletes")
     for c in adel:
-        facts = [(f.pol, norm(pretty(f.key))) for f in afl.state_at(c).facts if f.kind == "cond"]
-        inside_pos = [k for pol, k in facts if pol and "compare_with_int(" in k and not k.startswith("not")]
+        # a positive must-fact `<relevance distance>.compare_with_int(<distance>)` means: the object lies inside the area
+        inside_pos = [f for f in afl.state_at(c).facts if f.kind == "cond" and f.pol and isinstance(f.node, ast.Call)
+                      and isinstance(f.node.func, ast.Attribute) and f.node.func.attr == "compare_with_int"]
         ok = not inside_pos
         ctx.ob("C12.area", am.short(), "deletes-outside-only", ok,
                "objects are dropped only when they lie outside the area of maintenance" if ok else
